@@ -24,6 +24,7 @@
 #include "private/private.h"
 #include <sys/mman.h>
 #include <unistd.h>
+#include <sched.h>
 
 void mcs_snapshot_globals(void);
 
@@ -53,13 +54,34 @@ static struct hwloc_tma TMA;
 /* variants 2..4: the same, on a topology loaded with NO_DISTANCES / NO_MEMATTRS / NO_CPUKINDS: the flag stops the backends,
  * the annotations added by the user afterwards are live all the same and hwloc_topology_refresh() must refresh them
  * (seeded change C17-refresh-wrong-flag: the guard of one refresh step tested the flag of another) */
-#define NVARIANTS 5
-static const unsigned long VFLAGS[NVARIANTS] = { 0, 0, HWLOC_TOPOLOGY_FLAG_NO_DISTANCES, HWLOC_TOPOLOGY_FLAG_NO_MEMATTRS, HWLOC_TOPOLOGY_FLAG_NO_CPUKINDS };
-static const char *VNAME[NVARIANTS] = { "", " (annotated, restricted, refreshed)", " (NO_DISTANCES, annotated, restricted, refreshed)", " (NO_MEMATTRS, annotated, restricted, refreshed)", " (NO_CPUKINDS, annotated, restricted, refreshed)" };
+#define NVARIANTS 6
+static const unsigned long VFLAGS[NVARIANTS] = { 0, 0, HWLOC_TOPOLOGY_FLAG_NO_DISTANCES, HWLOC_TOPOLOGY_FLAG_NO_MEMATTRS, HWLOC_TOPOLOGY_FLAG_NO_CPUKINDS,
+  /* variant 5: nothing but a load, with RESTRICT_TO_CPUBINDING while the loading thread is bound to the first three CPUs: the
+   * load itself restricts the topology (after its own end-of-load refresh), "once a topology has been loaded" must still hold */
+  HWLOC_TOPOLOGY_FLAG_RESTRICT_TO_CPUBINDING | HWLOC_TOPOLOGY_FLAG_IS_THISSYSTEM };
+static const char *VNAME[NVARIANTS] = { "", " (annotated, restricted, refreshed)", " (NO_DISTANCES, annotated, restricted, refreshed)", " (NO_MEMATTRS, annotated, restricted, refreshed)", " (NO_CPUKINDS, annotated, restricted, refreshed)", " (loaded with RESTRICT_TO_CPUBINDING while bound to CPUs 0-2)" };
 static hwloc_topology_t load_variant(const struct usrc *s, int variant)
 {
   struct ucfg c; ucfg_keepall(&c); hwloc_topology_t t;
   c.flags |= VFLAGS[variant];
+  if (variant == 5) {
+    cpu_set_t before, three; CPU_ZERO(&three); CPU_SET(0, &three); CPU_SET(1, &three); CPU_SET(2, &three);
+    if (sched_getaffinity(0, sizeof(before), &before) < 0 || sched_setaffinity(0, sizeof(three), &three) < 0) return NULL;
+    int rc = univ_load(&t, s, &c);
+    sched_setaffinity(0, sizeof(before), &before);
+    if (rc) return NULL;
+    if (hwloc_get_nbobjs_by_type(t, HWLOC_OBJ_PU) != 3) { hwloc_topology_destroy(t); return NULL; }   /* the source does not have these PUs */
+    /* "once a topology has been loaded" readers may start: the load must not leave lazy refresh work behind.  The readers
+     * below run on an arena copy that the harness refreshes itself, so what the load left is read off the internal flags
+     * (the one white-box clause of this check) */
+    { struct hwloc_internal_distances_s *d; unsigned stale = 0; struct sb w; sb_init(&w);
+      for (d = t->first_dist; d; d = d->next) if (!(d->iflags & HWLOC_INTERNAL_DIST_FLAG_OBJS_VALID)) { stale++; sb_printf(&w, " distances \"%s\"", d->name ? d->name : "(anonymous)"); }
+      for (unsigned i = 0; i < t->nr_memattrs; i++) if (!(t->memattrs[i].iflags & (HWLOC_IMATTR_FLAG_CACHE_VALID | HWLOC_IMATTR_FLAG_CONVENIENCE))) { stale++; sb_printf(&w, " memattr \"%s\"", t->memattrs[i].name); }
+      if (stale) mc_violation("c17.load.leaves-lazy-refresh", "%s loaded with RESTRICT_TO_CPUBINDING while bound to CPUs 0-2 :: hwloc_topology_load() returns with %u structures still to be refreshed by the first reader:%s", s->name, stale, w.s);
+      else mc_count("loads_left_nothing_to_refresh", 1);
+      sb_free(&w); }
+    return t;
+  }
   if (univ_load(&t, s, &c)) return NULL;
   if (!variant) return t;
   unsigned npu = hwloc_get_nbobjs_by_type(t, HWLOC_OBJ_PU);
@@ -104,7 +126,7 @@ static hwloc_topology_t load_variant(const struct usrc *s, int variant)
 
 static hwloc_topology_t shared_from(const struct usrc *s, int variant)
 {
-  hwloc_topology_t t0 = load_variant(s, variant), t = NULL; int refresh = 1;
+  hwloc_topology_t t0 = load_variant(s, variant), t = NULL; int refresh = 1;   /* the arena copy is the harness' instrument (a dup always has to look its objects up again): refreshed in every variant */
   if (!t0) return NULL;
   arena_used = 0; memset(ARENA, 0, 4096);
   TMA.malloc = arena_malloc; TMA.data = NULL; TMA.dontfree = 1;
